@@ -4,8 +4,9 @@ CONSTANTS
   Tries = 2
   MaxReplies = 2
   Rapid = TRUE
+  Inform = FALSE
   EmitCases = FALSE
 VIEW View
-INVARIANTS LeaseRule NakRule RequestRule Emit
+INVARIANTS LeaseRule NakRule RequestRule InformRule Emit
 PROPERTIES IgnoreRule
 CHECK_DEADLOCK FALSE
